@@ -28,29 +28,43 @@ Variable wf : term -> Prop.
 Definition wfs (l : list term) : Prop := Forall wf l.
 Definition wfc (c : contract) : Prop := wfs (c_a c) /\ wfs (c_g c).
 
+(* admissible variable names (e.g. fun v => v <> "_" when the domain reserves a
+   name for internal use).  The elimination primitives need to meet their
+   contracts only for duplicate-free lists of admissible variables: the algebra
+   only ever passes lists computed from the operands' interface lists *)
+Variable pv : var -> Prop.
+Definition vs_ok (vs : list var) : Prop := NoDup vs /\ Forall pv vs.
+Definition iface_ok (c : contract) : Prop :=
+  NoDup (c_inputvars c) /\ NoDup (c_outputvars c) /\
+  Forall pv (c_inputvars c) /\ Forall pv (c_outputvars c).
+
 (* the documented contracts of the primitives; each primitive may fail (inr _)
    and then promises nothing *)
 Record DomainSpec : Prop := {
   (* Term.__eq__ only identifies (well-formed) constraints with the same meaning *)
   eqb_sound : forall t1 t2, wf t1 -> wf t2 -> term_eqb t1 t2 = true -> forall b, dt t1 b <-> dt t2 b;
   (* elim_vars_by_refining: Gamma: x / Gamma: s *)
-  refine_ok : forall s ctx vs sp od r st, wfs s -> wfs ctx ->
+  refine_ok : forall s ctx vs sp od r st, wfs s -> wfs ctx -> vs_ok vs ->
       p_elim_refine s ctx vs sp od = inl (r, st) ->
       wfs r /\ forall b, den ctx b -> den r b -> den s b;
   (* elim_vars_by_relaxing: Gamma: s / Gamma: x *)
-  relax_ok : forall s ctx vs sp od r st, wfs s -> wfs ctx ->
+  relax_ok : forall s ctx vs sp od r st, wfs s -> wfs ctx -> vs_ok vs ->
       p_elim_relax s ctx vs sp od = inl (r, st) ->
       wfs r /\ forall b, den ctx b -> den s b -> den r b;
   (* simplify: an equivalence wherever the context holds (no context = True) *)
   simpl_ok : forall s ctx r, wfs s -> wfs (opt_list ctx) ->
       p_simplify s ctx = inl r ->
       wfs r /\ forall b, den (opt_list ctx) b -> (den r b <-> den s b);
-  (* refines: True only for containment *)
-  refines_ok : forall x y, wfs x -> wfs y ->
-      p_refines x y = inl true -> forall b, den x b -> den y b;
-  (* renaming a variable preserves the invariant *)
-  rename_wf : forall t s u, wf t -> wf (term_rename t s u)
+  (* renaming a variable to an admissible name preserves the invariant *)
+  rename_wf : forall t s u, pv u -> wf t -> wf (term_rename t s u)
 }.
+
+(* refines: True only for containment.  Kept apart from DomainSpec: a domain whose
+   refinement test is only sound up to a numerical tolerance does not have it, and
+   only the operations that call p_refines (refines, contains_*, and one test in
+   the quotient) depend on it *)
+Definition RefinesSpec : Prop :=
+  forall x y, wfs x -> wfs y -> p_refines x y = inl true -> forall b, den x b -> den y b.
 
 (* a component honours its contract at b: it delivers its guarantees whenever
    its assumptions hold *)
